@@ -257,6 +257,22 @@ def main(argv):
         return setup()
     if cmd == "list":
         return list_units()
+    if cmd == "gen":
+        u = load_units()[args[0]]
+        text, manifest, drops, fnlocs, side = V.build_file(u)
+        path = V.gen_dir() / f"{u['name']}.rs"
+        path.write_text(text)
+        rc, data, diags, err, wall, c = V.run_verus_file(path, u.get("rlimit", 30))
+        log(c)
+        for d_ in diags:
+            if d_.get("level") in ("error",) or "--warn" in args:
+                log(d_.get("rendered", d_.get("message")))
+        if data:
+            log(json.dumps(data.get("verification-results")))
+        else:
+            log(err[-3000:])
+        log(f"{wall:.1f}s  drops: {drops}")
+        return 0
     if cmd == "selftest":
         import selftest
         return selftest.main(args)
